@@ -1,4 +1,5 @@
 # -*- coding: utf-8 -*-
+import math
 import re
 from .._compat import number_types, string_types
 
@@ -7,17 +8,31 @@ from .._compat import number_types, string_types
 NUMERIC_TEXT = re.compile(r'\s*[+-]?(\d+\.?\d*|\.\d+)([eE][+-]?\d+)?\s*\Z')
 
 
+def whole_number(text):
+    """ int(text) for any number of digits (Python refuses more than 4300 at once) """
+    sign = -1 if text.startswith('-') else 1
+    digits = text.lstrip('+-')
+    value = 0
+    for start in range(0, len(digits), 4000):
+        chunk = digits[start:start + 4000]
+        value = value * 10 ** len(chunk) + int(chunk)
+    return sign * value
+
+
 def to_number(number):
     if isinstance(number, number_types):
         return number
     if isinstance(number, string_types) and NUMERIC_TEXT.match(number):
+        text = number.strip()
+        if text.lstrip('+-').isdigit():
+            return whole_number(text)
         try:
-            return int(number)
+            value = float(number)
         except ValueError:
-            try:
-                return float(number)
-            except ValueError:
-                pass
+            value = float('inf')
+        if not math.isinf(value):
+            # "1e999" spells no number a sheet can hold: it stays text
+            return value
     if isinstance(number, bool):
         return 1 if number else 0
     return number
